@@ -153,13 +153,14 @@ Inflight(ev) == /\ infl' = <<ev>>
 Restart(ev) ==
   IF \E i \in DOMAIN ev.ctl : ~ev.ctl[i].ok THEN Fail("C15_ControlFilesReadable") ELSE Keep
 
-EXDEV == "TempDirOtherFilesystemEXDEV"
+\* A dump command that was not answered OK carries the narrow signature of its cause when
+\* the failing execution itself shows one (computed from the operation logs and the
+\* directory, see maildir_crash.py); it is tolerated only if that is an OPEN known finding.
 Served(ev) ==
   LET failed == {i \in DOMAIN ev.cmds : ~ev.cmds[i].ok}
-      exdev == failed # {} /\ \A i \in failed : ev.cmds[i].exdev
   IN IF failed = {} THEN Keep
-     ELSE IF exdev /\ EXDEV \in Known
-     THEN /\ used' = used \cup {EXDEV}
+     ELSE IF \A i \in failed : ev.cmds[i].sig # "" /\ ev.cmds[i].sig \in Known
+     THEN /\ used' = used \cup {ev.cmds[i].sig : i \in failed}
           /\ UNCHANGED <<acked, subs, unsubs, created, seen, gone, infl, bad>>
      ELSE Fail("C15_ControlFilesReadable")
 
